@@ -20,6 +20,7 @@ is: `C03_full_counterexample` (finding F-9, `Frame.size` contains the text of wa
 import PrimaiteModel.Lemmas.NondetDischarge
 import PrimaiteModel.Gen.SharedState
 import PrimaiteModel.Gen.NondetOutput
+import PrimaiteModel.Gen.OwnGeneratorState
 
 namespace Primaite.Noninterf
 open Primaite.Gen.Nondet
@@ -370,9 +371,11 @@ theorem C03_unseeded_family_counterexample :
   refine ⟨by decide, ?_⟩
   exact C03_run_indep_of_env_agree demoFixed _ _ _ _ _ _ rhoMicros_valid rhoEntropy7_valid (drawSim_safe _ _ rfl _)
 
-/-- **"Nothing else consumes the global generators" is a hypothesis, not a consequence.** A foreign draw (another
-environment instance, the training loop) between `reset(seed=s)` and a step changes the episode; foreign draws BEFORE the
-re-seeding do not (`C03_reseed_reproduces_agree` quantifies over arbitrary earlier generator states). -/
+/-- **About the operations WITHOUT the decorator (the code before the F-11 repair; `runOps` alone):** "nothing else consumes the
+global generators" was a hypothesis, not a consequence. A foreign draw (another environment instance, the training loop) between
+`reset(seed=s)` and a step changes the episode; foreign draws BEFORE the re-seeding do not (`C03_reseed_reproduces_agree` quantifies over
+arbitrary earlier generator states). Since the repair the hypothesis is gone: `C03_foreign_draw_harmless_since_repair`,
+`C03_run_indep_of_env_and_foreign_activity`. -/
 theorem C03_foreign_draw_counterexample :
     canonRun [] (runOps demoFixed rhoMicros (drawSim .py) (fun _ => ()) { episode := 0, st := (), w := {} }
         [.reset (some 3), .step ()]) ≠
@@ -513,6 +516,72 @@ example : run repairedFixed (linkSim 520) (fun _ => ()) 0 [.step (), .reset (som
   C03_run_indep_of_env repairedFixed repairedFixed_fixedWidth _ _ _ _ _ _ rhoWholeSecond_valid rhoMicros_valid
     (linkSim_safe 520 _ True trivial)
 
+/-! ## the environment's OWN generator state (F-11 repaired): nothing else in the process can move a draw
+
+Until the F-11 repair "nothing else consumes the global generators between two calls" was a HYPOTHESIS of every theorem above
+(`C03_foreign_draw_counterexample`). The code now wraps `__init__` / `reset` / `step` in `own_generator_state`; the model of that is
+`ownedOpStep` (Lemmas/NoninterfOwnState.lean) and the hypothesis is gone: the statements below quantify over ARBITRARY foreign activity. -/
+
+/-- **run_indep_of_env with arbitrary foreign activity, FULL.** Two runs of the same scenario, seed and environment operations - in two
+processes with any valid environments `ρ`, `ρ'`, and with ANY, DIFFERENT use of the process-wide generators by others (other environment
+instances, the training loop) anywhere between the operations - produce the same canonical trajectory. -/
+theorem C03_run_indep_of_env_and_foreign_activity {ι ι' Cfg σ Act : Type} [DecidableEq ι] [DecidableEq ι'] (g : Fixed) (hw : g.FixedWidth)
+    (sim : Sim Cfg σ Act) (sched : Nat → Cfg) (seed : Nat) (ops ops' : List (Op Act)) (hops : dropForeign ops = dropForeign ops')
+    (ρ : Rho ι) (ρ' : Rho ι') (hv : ρ.Valid) (hv' : ρ'.Valid) (hs : sim.Safe g.seeds True) :
+    runOwnedFrom g sim sched seed ops ρ = runOwnedFrom g sim sched seed ops' ρ' := by
+  rw [runOwnedFrom_eq_run, runOwnedFrom_eq_run, hops]
+  exact C03_run_indep_of_env g hw sim sched seed _ ρ ρ' hv hv' hs
+
+/-- **reseed_reproduces with arbitrary foreign activity, FULL**: after `reset(seed = s)` the episode is a function of (schedule, episode
+index, s, the environment's later operations) - whatever the two processes did before, whatever state the process-wide generators AND the
+environment's saved state are in, and whatever others draw in between. -/
+theorem C03_reseed_reproduces_and_foreign_activity {ι ι' Cfg σ Act : Type} [DecidableEq ι] [DecidableEq ι'] (g : Fixed) (hw : g.FixedWidth)
+    (sim : Sim Cfg σ Act) (sched : Nat → Cfg) (ρ : Rho ι) (ρ' : Rho ι') (hv : ρ.Valid) (hv' : ρ'.Valid)
+    (hs : sim.Safe g.seeds True) (q q' : OProc σ) (he : q.p.episode = q'.p.episode) (s : Nat) (ops ops' : List (Op Act))
+    (hops : dropForeign ops = dropForeign ops') :
+    canonRun [] (runOwned g ρ sim sched q (.reset (some s) :: ops)) =
+      canonRun [] (runOwned g ρ' sim sched q' (.reset (some s) :: ops')) := by
+  rw [runOwned_eq_runOps, runOwned_eq_runOps]
+  have h1 : dropForeign (Op.reset (some s) :: ops) = Op.reset (some s) :: dropForeign ops := by
+    simp [dropForeign, Op.isForeign]
+  have h2 : dropForeign (Op.reset (some s) :: ops') = Op.reset (some s) :: dropForeign ops' := by
+    simp [dropForeign, Op.isForeign]
+  rw [h1, h2, hops]
+  exact C03_reseed_reproduces g hw sim sched ρ ρ' hv hv' hs q.install q'.install he s _
+
+/-- the witness of `C03_foreign_draw_counterexample` (a foreign draw between `reset(seed=3)` and a step), on the code as it is NOW: the
+foreign draw no longer moves the episode; and the draws are real (another seed gives another value) -/
+theorem C03_foreign_draw_harmless_since_repair :
+    runOwned demoFixed rhoMicros (drawSim .py) (fun _ => ()) { p := { episode := 0, st := (), w := {} }, own := fun _ => 0 }
+        [.reset (some 3), .foreign .py, .step ()] =
+      runOwned demoFixed rhoMicros (drawSim .py) (fun _ => ()) { p := { episode := 0, st := (), w := {} }, own := fun _ => 0 }
+        [.reset (some 3), .step ()] ∧
+    runOwned demoFixed rhoMicros (drawSim .py) (fun _ => ()) { p := { episode := 0, st := (), w := {} }, own := fun _ => 0 }
+        [.reset (some 3), .foreign .py, .step ()] ≠
+      runOwned demoFixed rhoMicros (drawSim .py) (fun _ => ()) { p := { episode := 0, st := (), w := {} }, own := fun _ => 0 }
+        [.reset (some 4), .foreign .py, .step ()] := by decide
+
+open Primaite.Gen.OwnGeneratorState in
+/-- **Gen obligation: the code IS `ownedOpStep`.** The decorator `own_generator_state` reads the environment's saved state first, puts it
+back into BOTH seeded process-wide generators (`random`, `numpy.random`) when there is one, only then runs the wrapped operation (once,
+inside the `try`), and records both states under the SAME key in the `finally`; it has no other statement and draws nothing; nothing else
+in the package touches the key; `__init__`, `reset`, `step` of `PrimaiteGymEnv` and `PrimaiteRayMARLEnv` carry it (`PrimaiteRayEnv`
+delegates to a `PrimaiteGymEnv`), and no decorated method calls a decorated method of the same object (a nested wrapper would rewind the
+running operation's draws). The four `getstate` / `setstate` sites of the inventory are the ones of this wrapper
+(`C03_facts_support_discharges`: `stateAccess … inWrapper`). -/
+theorem C03_gen_own_generator_state :
+    stateKey = savedUnder ∧ stateKey ≠ "" ∧ ownReadFirst = true ∧ restoreGuard = "isNotNone"
+    ∧ restoreCalls.map (·.1) = ["random.setstate", "numpy.random.set_state"]
+    ∧ savedValue = ["random.getstate", "numpy.random.get_state"]
+    ∧ restoreCalls.map (·.2) = ["own[0]", "own[1]"]
+    ∧ operationCalls.length = 1 ∧ operationAfterRestore = true ∧ operationInTry = true
+    ∧ drawsInWrapper = [] ∧ otherStatements = [] ∧ stateKeyMentions = [] ∧ nestedOwned = []
+    ∧ (["PrimaiteGymEnv", "PrimaiteRayMARLEnv"].all fun c => ["__init__", "reset", "step"].all fun m =>
+        decorated.any fun d => d.1 == c && d.2.1 == m && d.2.2 == ["own_generator_state"]) = true
+    ∧ ((table.filter fun e => e.2 == .ownGeneratorState).map fun e => (e.1.scope, e.1.detail)) =
+        [ ("own_generator_state.wrapper", "np.random.get_state()"), ("own_generator_state.wrapper", "np.random.set_state(own[1])"),
+          ("own_generator_state.wrapper", "random.getstate()"), ("own_generator_state.wrapper", "random.setstate(own[0])") ] := by decide
+
 /-! ## output settings must not decide WHEN a draw happens ("with logging fully on or fully off")
 
 The model has no output-setting input: a `Sim` cannot look at `save_agent_logs`.  The hole that leaves: a draw made LAZILY (inside a
@@ -582,12 +651,13 @@ theorem C03_set_iterations_by_lemma :
      (table.filter fun e => e.1.kind == .setIter && e.2.basis == .trusted).map (·.2)) =
     (11, [.setIntHash, .setIntHash]) := by decide
 
-/-- How the 74 discharges split: by lemma / by a mechanical Gen fact + kind lemma / mechanical fact + trusted runtime fact /
-attributed to the open finding. (Before this round: 30 by lemma, 28 by reading, 4 open finding.) -/
+/-- How the 78 discharges split: by lemma / by a mechanical Gen fact + kind lemma / mechanical fact + trusted runtime fact /
+attributed to the open finding. (74 before the F-11 repair: its four `getstate` / `setstate` sites are discharged by a mechanical fact +
+the lemma `runOwned_eq_runOps`, not by a trusted list.) -/
 theorem C03_discharge_counts :
     (table.length, (table.filter fun e => e.2.basis == .lemma).length, (table.filter fun e => e.2.basis == .mechanical).length,
      (table.filter fun e => e.2.basis == .trusted).length, (table.filter fun e => e.2.basis == .openFinding).length) =
-    (74, 9, 58, 7, 0) := by
+    (78, 9, 62, 7, 0) := by
   decide
 
 set_option maxRecDepth 100000 in
